@@ -63,6 +63,14 @@ func labelIdxStruct(label string, data map[string]interface{}) map[string]interf
 func (kgdb *KVInterfaceGDB) AddVertexIndex(label string, field string) error {
 	log.WithFields(log.Fields{"label": label, "field": field}).Info("Adding vertex index")
 	field = normalizePath(field)
+	// the index is registered under the path graph.v.label.field: a label with a '.'
+	// would read as a path of its own, a zero byte ends the key of the field record
+	if label == "" || strings.ContainsAny(label, ".\x00") {
+		return fmt.Errorf("cannot index label '%s': the label is empty or contains '.' or a zero byte", label)
+	}
+	if field == "" || strings.Contains(field, "\x00") {
+		return fmt.Errorf("cannot index field '%s': the field is empty or contains a zero byte", field)
+	}
 	//TODO kick off background process to reindex existing data
 	return kgdb.kvg.idx.AddField(fmt.Sprintf("%s.v.%s.%s", kgdb.graph, label, field))
 }
@@ -82,8 +90,9 @@ func (kgdb *KVInterfaceGDB) GetVertexIndexList() <-chan *gripql.IndexID {
 		defer close(out)
 		fields := kgdb.kvg.idx.ListFields()
 		for _, f := range fields {
-			t := strings.Split(f, ".")
-			if len(t) > 3 {
+			// graph.v.label.field, where field may be a path itself
+			t := strings.SplitN(f, ".", 4)
+			if len(t) > 3 && t[0] == kgdb.graph && t[1] == "v" {
 				out <- &gripql.IndexID{Graph: kgdb.graph, Label: t[2], Field: t[3]}
 			}
 		}
